@@ -1,4 +1,5 @@
 import LK.PropsAll
+import LK.Proofs.PipelineValidate
 import Mathlib.Tactic.NormNum
 import Mathlib.Algebra.BigOperators.Fin
 /-!
@@ -122,3 +123,10 @@ example : buildCfg .repaired (fromCfg .repaired exCfg) = exCfg := C13_Config_rou
     · simp at hts; subst hts; decide
     · simp at hts)
 end LK.Cfg
+
+/-! C02: the builder's `validate` accepts the three-node probe graph (so `validated_run_eq_denote` applies to it) and refuses a two-node cycle -/
+namespace LK.Pipe
+example : validateOk gProbe 3 = true := by decide
+def gCycle : Graph := { node := fun n => if n < 2 then .comp [{ lzy := false, acceptsNone := false, accepts := fun _ => true, src := some (1 - n) }] (fun _ => none) (fun _ _ => .ok .none) else .literal .none }
+example : validateOk gCycle 2 = false := by decide
+end LK.Pipe
